@@ -88,8 +88,35 @@ class Sort(Harness):
         cl += order_clauses(keycols, [d for _, d in inp["by"]], rids)
         return cl
 
+class SortTwice(Sort):
+    """history: sort, overwrite every key cell in place, sort again - the second result must only depend on the new keys"""
+    opname = "df_sort_twice"
+    def __init__(self, kind, maxn):
+        Sort.__init__(self, [kind], maxn)
+        self.name = f"C03.sort_twice.{kind}.n{maxn}"
+        self.bounds = dict(self.bounds, history="sort, in-place assignment of new key cells, sort again")
+    def build(self, ctx):
+        from .common import sym_cell, scalar_of
+        inp = Sort.build(self, ctx)
+        n = len(inp["data"].cols["rid"])
+        inp["new"] = [scalar_of(sym_cell(self.kinds[0], f"new{i}"), self.kinds[0]) for i in range(n)]
+        return inp
+    def _with_new(self, inp):
+        from .common import as_cell
+        data = inp["data"]; cols = dict(data.cols)
+        cols["k0"] = Arr(data.cols["k0"].dtype, [as_cell(x, self.kinds[0]) for x in inp["new"]])
+        return dict(inp, data=Frame(cols))
+    def regions(self, inp):
+        regs = Sort.regions(self, inp)
+        for k, v in Sort.regions(self, self._with_new(inp)).items():
+            regs[k] = z3.Or(regs.get(k, T(False)), v)
+        return regs
+    def spec(self, inp, out):
+        return Sort.spec(self, self._with_new(inp), out)
+
 def harnesses(tier):
     hs = []
+    hs.append(SortTwice("T", 2))
     if tier == "quick":
         for k in ["f", "i", "T", "b", "D", "U"]:
             hs.append(Sort([k], 3))
